@@ -77,4 +77,15 @@ example : history St.empty [⟨noConv, fooFmt, false, ["--foo".toList, "x".toLis
     = [parse noConv fooFmt false ["--foo".toList, "x".toList], parse noConv fooFmt false ["y".toList]] :=
   history_independent _ _
 
+/-- `parseFrom_fresh` / `parseFrom_result` on a parser object whose scratch dictionaries are NOT empty
+(none of the C05 theorems has a hypothesis: they hold for every state, request and format) -/
+def dirty : St := { args := [(.real "a".toList, .one (.tok "old".toList))], opts := [("foo".toList, .one (.bool true))] }
+example : parseFrom dirty noConv fooFmt false ["y".toList] = parseFrom St.empty noConv fooFmt false ["y".toList] :=
+  parseFrom_fresh _ _ _ _ _
+example : (parseFrom dirty noConv fooFmt false ["y".toList]).1
+    = .ok { args := [("a".toList, .scalar (.str "y".toList))], opts := [] } := by
+  rw [parseFrom_result]; rfl
+example : history dirty [⟨noConv, fooFmt, false, ["y".toList]⟩] = [parse noConv fooFmt false ["y".toList]] :=
+  history_independent _ _
+
 end Clikit.Props.C05
